@@ -30,7 +30,7 @@ impl Conn {
         let s = connect(port)?;
         let mut c = Conn::Tcp { s, buf: vec![] };
         // the server greets every new connection with `ok`
-        let deadline = Instant::now() + Duration::from_millis(1500);
+        let deadline = Instant::now() + Duration::from_millis(10000);
         loop {
             c.fill(Duration::from_millis(5));
             if !c.take_messages().is_empty() || Instant::now() > deadline {
@@ -179,7 +179,7 @@ impl Conn {
         if let Err(e) = self.send(line) {
             return json!({"cls":"closed","msg":e});
         }
-        let deadline = Instant::now() + Duration::from_millis(3000);
+        let deadline = Instant::now() + Duration::from_millis(10000);
         let mut err: Option<String> = None;
         let mut last_data = Instant::now();
         loop {
@@ -218,7 +218,7 @@ impl Conn {
     /// Everything the server sends until the socket stays silent for `quiet` (at most 3 s).
     pub fn collect_until_quiet(&mut self, quiet: Duration) -> Vec<String> {
         let mut out = vec![];
-        let deadline = Instant::now() + Duration::from_millis(3000);
+        let deadline = Instant::now() + Duration::from_millis(10000);
         let mut last = Instant::now();
         loop {
             let got = self.take_messages();
@@ -251,7 +251,7 @@ impl Conn {
                 let _ = s.write_all(&[0x88, 0x80, 0x12, 0x34, 0x56, 0x78]);
             }
         }
-        let deadline = Instant::now() + Duration::from_millis(3000);
+        let deadline = Instant::now() + Duration::from_millis(10000);
         while Instant::now() < deadline {
             if self.at_eof(Duration::from_millis(20)) {
                 break;
@@ -289,7 +289,7 @@ impl Conn {
         if self.send(&format!("zzbarrier{}", tag)).is_err() {
             return out;
         }
-        let deadline = Instant::now() + Duration::from_millis(3000);
+        let deadline = Instant::now() + Duration::from_millis(10000);
         loop {
             let mut done = false;
             for m in self.take_messages() {
